@@ -604,6 +604,18 @@ theorem elems_loop {W : Val → Val} (hW : SeqWrap W) {n0 : Nat} (k : G τ) (key
     exact hev
   | _ => intro pre n ht; simp [allHaveType] at ht
 
+theorem sapp_snil_of_entries {K V : Ty} : ∀ pre : Val, entriesHaveType env K V pre = true →
+    sapp pre .snil = pre := by
+  intro pre
+  induction pre with
+  | snil => intro _; rfl
+  | scons e t _ iht =>
+    intro hpre
+    rcases entriesHaveType_inv hpre with h0 | ⟨_, _, _, he, _, _, hr'⟩
+    · cases h0
+    · cases he; rw [sapp_scons, iht hr']
+  | _ => intro hpre; simp [entriesHaveType] at hpre
+
 theorem finite_pair {k v : Val} (h : finiteFloats (.pair k v) = true) :
     finiteFloats k = true ∧ finiteFloats v = true := by
   simpa [finiteFloats] using h
@@ -632,16 +644,8 @@ theorem entriesLit_loop (hf : env.flagsOk = true) (hL : L.Round) {n0 : Nat} (k :
   induction es with
   | snil =>
     intro pre done n _ _ _ _ hr hpre _
-    refine ⟨done, n, Nat.le_refl _, ?_, by rw [entriesLitG.eq_def]; rfl⟩
-    have : sapp pre .snil = pre := by
-      clear hr
-      induction pre with
-      | scons e t _ iht =>
-        rcases entriesHaveType_inv hpre with h0 | ⟨_, _, _, he, _, _, hr'⟩
-        · cases h0
-        · cases he; rw [sapp_scons, iht hr']
-      | _ => first | rfl | simp [entriesHaveType] at hpre
-    rw [this]; exact hr
+    refine ⟨done, n, Nat.le_refl _, ?_, by rw [entriesLitG.eq_def]⟩
+    rw [sapp_snil_of_entries pre hpre]; exact hr
   | scons e r _ ihr =>
     intro pre done n ht hfin hP hn hr hpre hd
     rcases entriesHaveType_inv ht with h0 | ⟨key, v, r', he, hk, hv, hrt⟩
@@ -664,6 +668,551 @@ theorem entriesLit_loop (hf : env.flagsOk = true) (hL : L.Round) {n0 : Nat} (k :
       rw [sapp_single_assoc] at hrs
       exact ⟨done', n', Nat.le_trans hn1 hn', hrs, hev⟩
   | _ => intro pre done n ht; simp [entriesHaveType] at ht
+
+theorem entriesVar_loop (hf : env.flagsOk = true) {n0 : Nat} (k : G τ) (a : Nat)
+    (K V : Ty) (hc : canEqual env K = true) : ∀ (es pre done : Val) (i n : Nat) (keys : List (Nat × Val)),
+    entriesHaveType env K V es = true → finiteFloats es = true →
+    (∀ y, sizeOf y < sizeOf es → P env L y) → n0 ≤ n →
+    EntRel env n0 K V pre done → entriesHaveType env K V pre = true →
+    keysDistinct (sapp pre es) = true →
+    ∃ done' n' keys', n ≤ n' ∧ EntRel env n0 K V (sapp pre es) done' ∧
+      evalBody env L (entriesVarG env L K V es i k) ⟨.map a done, keys⟩ n
+        = evalBody env L k ⟨.map a done', keys'⟩ n' := by
+  intro es
+  induction es with
+  | snil =>
+    intro pre done i n keys _ _ _ _ hr hpre _
+    refine ⟨done, n, keys, Nat.le_refl _, ?_, by rw [entriesVarG.eq_def]⟩
+    rw [sapp_snil_of_entries pre hpre]; exact hr
+  | scons e r _ ihr =>
+    intro pre done i n keys ht hfin hP hn hr hpre hd
+    rcases entriesHaveType_inv ht with h0 | ⟨key, v, r', he, hk, hv, hrt⟩
+    · cases h0
+    · cases he
+      obtain ⟨hf1, hf2⟩ := finite_scons hfin
+      obtain ⟨hfk, hfv⟩ := finite_pair hf1
+      have hPr : ∀ y, sizeOf y < sizeOf r → P env L y := fun y hy => hP y (by simp; omega)
+      obtain ⟨k', n1, hk', hn1, hrk⟩ := (hP key (by simp; omega)).top K n0 hk hfk {} n hn
+      obtain ⟨v', n2, hv', hn2, hrv⟩ :=
+        (hP v (by simp; omega)).top V n0 hv hfv {} n1 (Nat.le_trans hn hn1)
+      have hset := mapSet_step (v' := v') hf hc hk hrk hr hpre hd
+      rw [entriesVarG.eq_1, evalBody.eq_1, evalStmt.eq_11]
+      simp only [call_eval, hk', Res.bind_ok]
+      rw [evalBody.eq_1, evalStmt.eq_12]
+      simp only [List.lookup_cons_self, call_eval, hv', hset, Res.bind_ok]
+      obtain ⟨done', n', keys', hn', hrs, hev⟩ := ihr (sapp pre (.scons (.pair key v) .snil))
+        (sapp done (.scons (.pair k' v') .snil)) (i + 1) n2 ((i, k') :: keys) hrt hf2 hPr
+        (Nat.le_trans hn (Nat.le_trans hn1 hn2))
+        (EntRel.snoc hrk hrv pre done hr) (entriesHaveType_snoc hk hv pre hpre)
+        (by rw [sapp_single_assoc]; exact hd)
+      rw [sapp_single_assoc] at hrs
+      exact ⟨done', n', keys', Nat.le_trans hn1 (Nat.le_trans hn2 hn'), hrs, hev⟩
+  | _ => intro pre done i n keys ht; simp [entriesHaveType] at ht
+
+/-! ## Shape of `top` / `field` once the underlying type is known -/
+
+theorem top_basic {T : Ty} {b : Basic} (hU : env.under T = .basic b) (x : Val) :
+    top env L T x = .ret (.leaf b (L.print b x)) := by
+  rw [top.eq_def]; simp only [hU]
+
+theorem top_ptr_nil {T R : Ty} (hU : env.under T = .ptr R) : top env L T .nilv = .retNil := by
+  rw [top.eq_def]; simp only [hU]
+
+theorem top_ptr_struct {T R fs : Ty} (hU : env.under T = .ptr R) (hR : env.under R = .struct fs)
+    (a : Nat) (xs : Val) :
+    top env L T (.ptr a (.struct xs)) =
+      if isExternal env R && (privMaskOf env R).any id then .bad
+      else if fs = .fnil then .ret (.addrEmpty R)
+      else .seq (.newStruct R) (fieldsG env L fs (privMaskOf env R) xs 0 .retThis) := by
+  rw [top.eq_def]; simp only [hU, hR]
+
+theorem top_ptr_other {T R : Ty} (hU : env.under T = .ptr R) (hR : ∀ fs, env.under R ≠ .struct fs)
+    (a : Nat) (y : Val) :
+    top env L T (.ptr a y) = .seq (.newPtr R) (.seq (field env L R y .deref) .retThis) := by
+  rw [top.eq_def]; simp only [hU]   -- the catch-all branch: its side condition is `hR`
+
+theorem top_struct {T fs : Ty} (hU : env.under T = .struct fs) (xs : Val) :
+    top env L T (.struct xs) = .seq (.newStruct T) (fieldsG env L fs (privMaskOf env T) xs 0 .retDeref) := by
+  rw [top.eq_def]; simp only [hU]
+
+theorem top_slice_nil {T E : Ty} (hU : env.under T = .slice E) : top env L T .nilv = .retNil := by
+  rw [top.eq_def]; simp only [hU]
+
+theorem top_slice_basic {T E : Ty} {b : Basic} (hU : env.under T = .slice E) (hB : isBasicTy E = some b)
+    (a sp : Nat) (xs : Val) : top env L T (.slice a sp xs) = .ret (.sliceLit T (leaves L b xs)) := by
+  rw [top.eq_def]; simp only [hU, hB]
+
+theorem top_slice_other {T E : Ty} (hU : env.under T = .slice E) (hB : isBasicTy E = none)
+    (a sp : Nat) (xs : Val) :
+    top env L T (.slice a sp xs) = .seq (.makeSlice T xs.slen) (elemsG env L E xs 0 .retThis) := by
+  rw [top.eq_def]; simp only [hU, hB]
+
+theorem top_array_basic {T E : Ty} {m : Nat} {b : Basic} (hU : env.under T = .array m E)
+    (hB : isBasicTy E = some b) (xs : Val) :
+    top env L T (.arr xs) = .ret (.arrayLit T (leaves L b xs)) := by
+  rw [top.eq_def]; simp only [hU, hB]
+
+theorem top_array_other {T E : Ty} {m : Nat} (hU : env.under T = .array m E)
+    (hB : isBasicTy E = none) (xs : Val) :
+    top env L T (.arr xs) = .seq (.arrZero T) (elemsG env L E xs 0 .retThis) := by
+  rw [top.eq_def]; simp only [hU, hB]
+
+theorem top_map_nil {T K V : Ty} (hU : env.under T = .map K V) : top env L T .nilv = .retNil := by
+  rw [top.eq_def]; simp only [hU]
+
+theorem top_map_lit {T K V : Ty} {bk bv : Basic} (hU : env.under T = .map K V)
+    (hK : isBasicTy K = some bk) (hV : isBasicTy V = some bv) (a : Nat) (es : Val) :
+    top env L T (.map a es) = .ret (.mapLit T (entryLeaves L bk bv es)) := by
+  rw [top.eq_def]; simp only [hU, hK, hV]
+
+theorem top_map_keylit {T K V : Ty} {bk : Basic} (hU : env.under T = .map K V)
+    (hK : isBasicTy K = some bk) (hV : isBasicTy V = none) (a : Nat) (es : Val) :
+    top env L T (.map a es) = .seq (.makeMap T) (entriesLitG env L bk V es .retThis) := by
+  rw [top.eq_def]; simp only [hU, hK, hV]
+
+theorem top_map_keyvar {T K V : Ty} (hU : env.under T = .map K V)
+    (hK : isBasicTy K = none) (a : Nat) (es : Val) :
+    top env L T (.map a es) = .seq (.makeMap T) (entriesVarG env L K V es 0 .retThis) := by
+  rw [top.eq_def]; simp only [hU, hK]
+
+theorem field_basic {F : Ty} {b : Basic} (hU : env.under F = .basic b) (x : Val) (tgt : Tgt) :
+    field env L F x tgt = assign tgt (.leaf b (L.print b x)) := by
+  rw [field.eq_def]; simp only [hU]
+
+theorem field_nil {F : Ty} (hU : (∃ R, env.under F = .ptr R) ∨ (∃ E, env.under F = .slice E) ∨
+    ∃ K V, env.under F = .map K V) (tgt : Tgt) : field env L F .nilv tgt = .skip := by
+  rw [field.eq_def]
+  rcases hU with ⟨R, h⟩ | ⟨E, h⟩ | ⟨K, V, h⟩ <;> simp only [h]
+
+theorem field_ptr_basic {F R : Ty} {b : Basic} (hU : env.under F = .ptr R) (hB : isBasicTy R = some b)
+    (a : Nat) (y : Val) (tgt : Tgt) :
+    field env L F (.ptr a y) tgt = assign tgt (.addrOf b (.leaf b (L.print b y))) := by
+  rw [field.eq_def]; simp only [hU, hB]
+
+theorem field_ptr_other {F R : Ty} (hU : env.under F = .ptr R) (hB : isBasicTy R = none)
+    (a : Nat) (y : Val) (tgt : Tgt) :
+    field env L F (.ptr a y) tgt = assign tgt (.call (.ptr R) (top env L (.ptr R) (.ptr a y))) := by
+  rw [field.eq_def]; simp only [hU, hB]
+
+theorem field_slice_basic {F E : Ty} {b : Basic} (hU : env.under F = .slice E)
+    (hB : isBasicTy E = some b) (a sp : Nat) (xs : Val) (tgt : Tgt) :
+    field env L F (.slice a sp xs) tgt = assign tgt (.sliceLit F (leaves L b xs)) := by
+  rw [field.eq_def]; simp only [hU, hB]
+
+theorem field_slice_other {F E : Ty} (hU : env.under F = .slice E) (hB : isBasicTy E = none)
+    (a sp : Nat) (xs : Val) (tgt : Tgt) :
+    field env L F (.slice a sp xs) tgt = assign tgt (.call F (top env L F (.slice a sp xs))) := by
+  rw [field.eq_def]; simp only [hU, hB]
+
+theorem field_array_basic {F E : Ty} {m : Nat} {b : Basic} (hU : env.under F = .array m E)
+    (hB : isBasicTy E = some b) (xs : Val) (tgt : Tgt) :
+    field env L F (.arr xs) tgt = assign tgt (.arrayLit F (leaves L b xs)) := by
+  rw [field.eq_def]; simp only [hU, hB]
+
+theorem field_array_other {F E : Ty} {m : Nat} (hU : env.under F = .array m E)
+    (hB : isBasicTy E = none) (xs : Val) (tgt : Tgt) :
+    field env L F (.arr xs) tgt = assign tgt (.call F (top env L F (.arr xs))) := by
+  rw [field.eq_def]; simp only [hU, hB]
+
+theorem field_map_lit {F K V : Ty} {bk bv : Basic} (hU : env.under F = .map K V)
+    (hK : isBasicTy K = some bk) (hV : isBasicTy V = some bv) (a : Nat) (es : Val) (tgt : Tgt) :
+    field env L F (.map a es) tgt = assign tgt (.mapLit F (entryLeaves L bk bv es)) := by
+  rw [field.eq_def]; simp only [hU, hK, hV]
+
+theorem field_map_other {F K V : Ty} (hU : env.under F = .map K V)
+    (hKV : isBasicTy K = none ∨ isBasicTy V = none) (a : Nat) (es : Val) (tgt : Tgt) :
+    field env L F (.map a es) tgt = assign tgt (.call F (top env L F (.map a es))) := by
+  rw [field.eq_def]; simp only [hU]
+  rcases hKV with h | h
+  · simp only [h]
+  · cases hK : isBasicTy K <;> simp only [h]
+
+theorem field_struct {F fs : Ty} (hU : env.under F = .struct fs) (x : Val) (tgt : Tgt) :
+    field env L F x tgt = assign tgt (.call F (top env L F x)) := by
+  rw [field.eq_def]; simp only [hU]
+
+theorem isBasicTy_some {E : Ty} {b : Basic} (h : isBasicTy E = some b) : E = .basic b := by
+  cases E <;> simp [isBasicTy] at h; rw [h]
+
+/-! ## Building `Rel1` for each type constructor -/
+
+theorem rel1_nil {n0 : Nat} {T : Ty} (hU : (∃ R, env.under T = .ptr R) ∨ (∃ E, env.under T = .slice E) ∨
+    ∃ K V, env.under T = .map K V) : Rel1 env n0 T .nilv .nilv := by
+  refine ⟨?_, ?_, by simp [addrs]⟩
+  · rw [hasType.eq_def]; rcases hU with ⟨R, h⟩ | ⟨E, h⟩ | ⟨K, V, h⟩ <;> simp only [h]
+  · rw [Spec.structEq.eq_def]; rcases hU with ⟨R, h⟩ | ⟨E, h⟩ | ⟨K, V, h⟩ <;> simp only [h]
+
+theorem rel1_ptr {n0 a a' : Nat} {T R : Ty} {y y' : Val} (hU : env.under T = .ptr R)
+    (h : Rel1 env n0 R y y') (ha : n0 ≤ a') : Rel1 env n0 T (.ptr a y) (.ptr a' y') := by
+  refine ⟨?_, ?_, ?_⟩
+  · rw [hasType.eq_def]; simp only [hU]; exact h.1
+  · rw [structEq_ptr hU]; exact h.2.1
+  · intro b hb
+    simp only [addrs, List.mem_cons] at hb
+    rcases hb with rfl | hb
+    · exact ha
+    · exact h.2.2 b hb
+
+theorem rel1_slice {n0 a sp a' : Nat} {T E : Ty} {xs ys : Val} (hU : env.under T = .slice E)
+    (h : SeqRel env n0 E xs ys) (ha : n0 ≤ a') : Rel1 env n0 T (.slice a sp xs) (.slice a' 0 ys) := by
+  obtain ⟨h1, h2, h3, _⟩ := h.out
+  refine ⟨?_, ?_, ?_⟩
+  · rw [hasType.eq_def]; simp only [hU]; exact h1
+  · rw [structEq_slice hU]; exact h2
+  · intro b hb
+    simp only [addrs, List.mem_cons] at hb
+    rcases hb with rfl | hb
+    · exact ha
+    · exact h3 b hb
+
+theorem rel1_arr {n0 m : Nat} {T E : Ty} {xs ys : Val} (hU : env.under T = .array m E)
+    (h : SeqRel env n0 E xs ys) (hl : xs.slen = m) : Rel1 env n0 T (.arr xs) (.arr ys) := by
+  obtain ⟨h1, h2, h3, h4⟩ := h.out
+  refine ⟨?_, ?_, ?_⟩
+  · rw [hasType.eq_def]; simp only [hU, Bool.and_eq_true, beq_iff_eq]; exact ⟨by rw [h4, hl], h1⟩
+  · rw [structEq_array hU]; exact h2
+  · intro b hb
+    simp only [addrs] at hb
+    exact h3 b hb
+
+theorem rel1_struct {n0 : Nat} {T fs : Ty} {xs ys : Val} (hU : env.under T = .struct fs)
+    (h : FldRel env n0 fs xs ys) : Rel1 env n0 T (.struct xs) (.struct ys) := by
+  obtain ⟨h1, h2, h3⟩ := h.out
+  refine ⟨?_, ?_, ?_⟩
+  · rw [hasType.eq_def]; simp only [hU]; exact h1
+  · rw [structEq_struct hU]; exact h2
+  · intro b hb
+    simp only [addrs] at hb
+    exact h3 b hb
+
+theorem rel1_map (hf : env.flagsOk = true) {n0 a a' : Nat} {T K V : Ty} {es ys : Val}
+    (hU : env.under T = .map K V) (hc : canEqual env K = true)
+    (ht : entriesHaveType env K V es = true) (hd : keysDistinct es = true)
+    (h : EntRel env n0 K V es ys) (ha : n0 ≤ a') : Rel1 env n0 T (.map a es) (.map a' ys) := by
+  obtain ⟨h1, h2, h3, h4⟩ := h.out
+  refine ⟨?_, ?_, ?_⟩
+  · rw [hasType.eq_def]; simp only [hU, Bool.and_eq_true]
+    exact ⟨⟨hc, h1⟩, keysDistinct_rel hf hc es ys h ht hd⟩
+  · rw [structEq_map hU]; simp only [Bool.and_eq_true, beq_iff_eq]; exact ⟨h2.symm, h3⟩
+  · intro b hb
+    simp only [addrs, List.mem_cons] at hb
+    rcases hb with rfl | hb
+    · exact ha
+    · exact h4 b hb
+
+/-! ## "Exported fields" and zero values -/
+
+theorem getD_of_all_false : ∀ (l : List Bool) (i : Nat), (l.all fun p => !p) = true → l.getD i false = false := by
+  intro l
+  induction l with
+  | nil => intro i _; simp
+  | cons h t iht =>
+    intro i hl
+    simp only [List.all_cons, Bool.and_eq_true, Bool.not_eq_true'] at hl
+    cases i with
+    | zero => simpa using hl.1
+    | succ j => simpa using iht j hl.2
+
+theorem any_of_all_false : ∀ (l : List Bool), (l.all fun p => !p) = true → l.any id = false := by
+  intro l
+  induction l with
+  | nil => intro _; rfl
+  | cons h t iht =>
+    intro hl
+    simp only [List.all_cons, Bool.and_eq_true, Bool.not_eq_true'] at hl
+    simp [hl.1, iht hl.2]
+
+theorem privMask_all_false (hexp : ExportedOnly env = true) (T : Ty) :
+    ((privMaskOf env T).all fun p => !p) = true := by
+  cases T with
+  | named i =>
+    simp only [privMaskOf]
+    cases hd : env.decl? i with
+    | none => rfl
+    | some d =>
+      have hm := Env.decl_mem hd
+      unfold ExportedOnly at hexp
+      rw [List.all_eq_true] at hexp
+      exact hexp d hm
+  | _ => rfl
+
+theorem exportedAt_ok (hexp : ExportedOnly env = true) (T : Ty) (i : Nat) :
+    exportedAt (privMaskOf env T) i = true := by
+  unfold exportedAt; rw [getD_of_all_false _ i (privMask_all_false hexp T)]; rfl
+
+theorem not_bad (hexp : ExportedOnly env = true) (R : Ty) :
+    (isExternal env R && (privMaskOf env R).any id) = false := by
+  rw [any_of_all_false _ (privMask_all_false hexp R)]; simp
+
+theorem zero1_of_zero0_nil {R : Ty} (h : zero0 env R = .nilv) : zero1 env R = .nilv := by
+  unfold zero1
+  split
+  · next m E hU => unfold zero0 at h; simp [hU] at h
+  · next fs hU => unfold zero0 at h; simp [hU] at h
+  · exact h
+
+theorem zero1_struct {T fs : Ty} (hU : env.under T = .struct fs) :
+    zero1 env T = .struct (zeroFields env fs) := by
+  unfold zero1; simp only [hU]
+
+theorem zero1_array {T E : Ty} {m : Nat} (hU : env.under T = .array m E) :
+    zero1 env T = .arr (sreplicate m (zero0 env E)) := by
+  unfold zero1; simp only [hU]
+
+theorem zero0_nil {F : Ty} (hU : (∃ R, env.under F = .ptr R) ∨ (∃ E, env.under F = .slice E) ∨
+    ∃ K V, env.under F = .map K V) : zero0 env F = .nilv := by
+  unfold zero0
+  rcases hU with ⟨R, h⟩ | ⟨E, h⟩ | ⟨K, V, h⟩ <;> simp only [h]
+
+/-! ## The induction step: `top` -/
+
+theorem step_top (hf : env.flagsOk = true) (hL : L.Round) (hexp : ExportedOnly env = true) (x : Val)
+    (ih : ∀ z, sizeOf z < sizeOf x → P env L z) :
+    ∀ T n0, hasType env T x = true → finiteFloats x = true → BodyOK env L n0 T x (top env L T x) := by
+  intro T n0 ht hfin fr n hn
+  cases hU : env.under T with
+  | basic b =>
+    rw [top_basic hU, evalBody.eq_5]
+    rw [hasType_basic hU] at ht
+    obtain ⟨v', hv, hrel⟩ := leaf_eval (env := env) (n0 := n0) hL ht hfin n
+    exact ⟨v', n, hv, Nat.le_refl _, hrel.congr (by rw [hU]; rfl)⟩
+  | ptr R =>
+    rcases hasType_ptr_inv hU ht with rfl | ⟨a, y, rfl, hy⟩
+    · rw [top_ptr_nil hU, evalBody.eq_4]
+      exact ⟨.nilv, n, rfl, Nat.le_refl _, rel1_nil (Or.inl ⟨R, hU⟩)⟩
+    · have hfy : finiteFloats y = true := by simpa [finiteFloats] using hfin
+      by_cases hS : ∃ fs, env.under R = .struct fs
+      · obtain ⟨fs, hR⟩ := hS
+        obtain ⟨xs, rfl, hxs⟩ := hasType_struct_inv hR hy
+        have hfxs : finiteFloats xs = true := by simpa [finiteFloats] using hfy
+        rw [top_ptr_struct hU hR, not_bad hexp R]
+        by_cases hfs : fs = .fnil
+        · subst hfs
+          have hx0 : xs = .snil := by
+            cases xs <;> simp [fieldsHaveType] at hxs
+            rfl
+          subst hx0
+          simp only [Bool.false_eq_true, if_false, if_true]
+          rw [evalBody.eq_5, evalE.eq_6]
+          exact ⟨.ptr n (.struct .snil), n + 1, rfl, Nat.le_succ _,
+            rel1_ptr hU (rel1_struct hR (by simp [FldRel])) hn⟩
+        · simp only [Bool.false_eq_true, if_false, hfs]
+          rw [evalBody.eq_1, evalStmt.eq_2]
+          simp only [Res.bind_ok]
+          rw [zero1_struct hR]
+          obtain ⟨ys, n', hn', hrs, hev⟩ := fields_loop (exportedAt_ok hexp R) (n0 := n0) .retThis n fr.keys
+            fs xs .snil (n + 1) hxs hfxs (fun z hz => ih z (by simp; omega)) (by omega)
+          rw [evalBody.eq_2] at hev
+          exact ⟨.ptr n (.struct ys), n', hev, by omega, rel1_ptr hU (rel1_struct hR hrs) hn⟩
+      · have hR : ∀ fs, env.under R ≠ .struct fs := fun fs h => hS ⟨fs, h⟩
+        rw [top_ptr_other hU hR, evalBody.eq_1, evalStmt.eq_3]
+        simp only [Res.bind_ok]
+        rw [evalBody.eq_1]
+        rcases (ih y (by simp; omega)).field R n0 hy hfy with ⟨hskip, hz, hrel⟩ | ⟨e, he, hok⟩
+        · rw [hskip, evalStmt.eq_1]
+          simp only [Res.bind_ok]
+          rw [evalBody.eq_2, zero1_of_zero0_nil hz]
+          exact ⟨.ptr n .nilv, n + 1, rfl, by omega, rel1_ptr hU hrel hn⟩
+        · obtain ⟨v', n1, hv, hn1, hrel⟩ := hok (n + 1) (by omega)
+          rw [he]
+          simp only [assign]
+          rw [setDeref_eval hv]
+          simp only [Res.bind_ok]
+          rw [evalBody.eq_2]
+          exact ⟨.ptr n v', n1, rfl, by omega, rel1_ptr hU hrel hn⟩
+  | struct fs =>
+    obtain ⟨xs, rfl, hxs⟩ := hasType_struct_inv hU ht
+    have hfxs : finiteFloats xs = true := by simpa [finiteFloats] using hfin
+    rw [top_struct hU, evalBody.eq_1, evalStmt.eq_2]
+    simp only [Res.bind_ok]
+    rw [zero1_struct hU]
+    obtain ⟨ys, n', hn', hrs, hev⟩ := fields_loop (exportedAt_ok hexp T) (n0 := n0) .retDeref n fr.keys
+      fs xs .snil (n + 1) hxs hfxs (fun z hz => ih z (by simp; omega)) (by omega)
+    rw [evalBody.eq_3] at hev
+    exact ⟨.struct ys, n', hev, by omega, rel1_struct hU hrs⟩
+  | slice E =>
+    rcases hasType_slice_inv hU ht with rfl | ⟨a, sp, xs, rfl, hxs⟩
+    · rw [top_slice_nil hU, evalBody.eq_4]
+      exact ⟨.nilv, n, rfl, Nat.le_refl _, rel1_nil (Or.inr (Or.inl ⟨E, hU⟩))⟩
+    · have hfxs : finiteFloats xs = true := by simpa [finiteFloats] using hfin
+      cases hB : isBasicTy E with
+      | some b =>
+        have hE := isBasicTy_some hB
+        subst hE
+        obtain ⟨ys, hys, hrs⟩ := leaves_eval (env := env) (n0 := n0) hL xs hxs hfxs n
+        rw [top_slice_basic hU hB, evalBody.eq_5, evalE.eq_2, hys]
+        simp only [Res.bind_ok]
+        exact ⟨.slice n 0 ys, n + 1, rfl, by omega, rel1_slice hU hrs hn⟩
+      | none =>
+        rw [top_slice_other hU hB, evalBody.eq_1, evalStmt.eq_4]
+        simp only [hU, Res.bind_ok]
+        obtain ⟨ys, n', hn', hrs, hev⟩ := elems_loop (SeqWrap.slice n 0) (n0 := n0) .retThis fr.keys E
+          (zero0 env E) xs .snil (n + 1) hxs hfxs (fun z hz => ih z (by simp; omega)) (by omega)
+        rw [evalBody.eq_2] at hev
+        exact ⟨.slice n 0 ys, n', hev, by omega, rel1_slice hU hrs hn⟩
+  | array m E =>
+    obtain ⟨xs, rfl, hlen, hxs⟩ := hasType_array_inv hU ht
+    have hfxs : finiteFloats xs = true := by simpa [finiteFloats] using hfin
+    cases hB : isBasicTy E with
+    | some b =>
+      have hE := isBasicTy_some hB
+      subst hE
+      obtain ⟨ys, hys, hrs⟩ := leaves_eval (env := env) (n0 := n0) hL xs hxs hfxs n
+      rw [top_array_basic hU hB, evalBody.eq_5, evalE.eq_3, hys]
+      simp only [Res.bind_ok]
+      exact ⟨.arr ys, n, rfl, Nat.le_refl _, rel1_arr hU hrs hlen⟩
+    | none =>
+      rw [top_array_other hU hB, evalBody.eq_1, evalStmt.eq_6]
+      simp only [Res.bind_ok]
+      rw [zero1_array hU, ← hlen]
+      obtain ⟨ys, n', hn', hrs, hev⟩ := elems_loop SeqWrap.arr (n0 := n0) .retThis fr.keys E
+        (zero0 env E) xs .snil n hxs hfxs (fun z hz => ih z (by simp; omega)) hn
+      rw [evalBody.eq_2] at hev
+      exact ⟨.arr ys, n', hev, hn', rel1_arr hU hrs hlen⟩
+  | map K V =>
+    rcases hasType_map_inv hU ht with rfl | ⟨a, es, rfl, hc, hes, hd⟩
+    · rw [top_map_nil hU, evalBody.eq_4]
+      exact ⟨.nilv, n, rfl, Nat.le_refl _, rel1_nil (Or.inr (Or.inr ⟨K, V, hU⟩))⟩
+    · have hfes : finiteFloats es = true := by simpa [finiteFloats] using hfin
+      have h0 : entriesHaveType env K V .snil = true := by rw [entriesHaveType.eq_def]
+      cases hK : isBasicTy K with
+      | some bk =>
+        have hKe := isBasicTy_some hK
+        subst hKe
+        cases hV : isBasicTy V with
+        | some bv =>
+          have hVe := isBasicTy_some hV
+          subst hVe
+          obtain ⟨ys, hys, hrs⟩ := entryLeaves_eval (env := env) (n0 := n0) hL es hes hfes n
+          rw [top_map_lit hU hK hV, evalBody.eq_5, evalE.eq_4, hys]
+          simp only [Res.bind_ok, keysDistinct_rel hf hc es ys hrs hes hd, if_true]
+          exact ⟨.map n ys, n + 1, rfl, by omega, rel1_map hf hU hc hes hd hrs hn⟩
+        | none =>
+          rw [top_map_keylit hU hK hV, evalBody.eq_1, evalStmt.eq_5]
+          simp only [Res.bind_ok]
+          obtain ⟨ys, n', hn', hrs, hev⟩ := entriesLit_loop hf hL (n0 := n0) .retThis n fr.keys bk V es
+            .snil .snil (n + 1) hes hfes (fun z hz => ih z (by simp; omega)) (by omega)
+            (by simp [EntRel]) h0 hd
+          rw [evalBody.eq_2] at hev
+          exact ⟨.map n ys, n', hev, by omega, rel1_map hf hU hc hes hd hrs hn⟩
+      | none =>
+        rw [top_map_keyvar hU hK, evalBody.eq_1, evalStmt.eq_5]
+        simp only [Res.bind_ok]
+        obtain ⟨ys, n', keys', hn', hrs, hev⟩ := entriesVar_loop hf (n0 := n0) .retThis n K V hc es
+          .snil .snil 0 (n + 1) fr.keys hes hfes (fun z hz => ih z (by simp; omega)) (by omega)
+          (by simp [EntRel]) h0 hd
+        rw [evalBody.eq_2] at hev
+        exact ⟨.map n ys, n', hev, by omega, rel1_map hf hU hc hes hd hrs hn⟩
+  | _ => rw [hasType_bad (by rw [hU])] at ht; cases ht
+
+/-! ## The induction step: `field` -/
+
+/-- a helper call `func() F { top F x }()` evaluates like the body -/
+theorem call_ok {n0 : Nat} {F : Ty} {x : Val} (h : BodyOK env L n0 F x (top env L F x)) :
+    ExprOK env L n0 F x (.call F (top env L F x)) := by
+  intro n hn
+  rw [call_eval]
+  exact h {} n hn
+
+theorem step_field (hf : env.flagsOk = true) (hL : L.Round) (x : Val)
+    (htop : ∀ T n0, hasType env T x = true → finiteFloats x = true → BodyOK env L n0 T x (top env L T x)) :
+    ∀ F n0, hasType env F x = true → finiteFloats x = true →
+      ((∀ tgt, field env L F x tgt = .skip) ∧ zero0 env F = .nilv ∧ Rel1 env n0 F x .nilv) ∨
+      ∃ e, (∀ tgt, field env L F x tgt = assign tgt e) ∧ ExprOK env L n0 F x e := by
+  intro F n0 ht hfin
+  cases hU : env.under F with
+  | basic b =>
+    refine Or.inr ⟨_, field_basic hU x, ?_⟩
+    intro n _
+    rw [hasType_basic hU] at ht
+    obtain ⟨v', hv, hrel⟩ := leaf_eval (env := env) (n0 := n0) hL ht hfin n
+    exact ⟨v', n, hv, Nat.le_refl _, hrel.congr (by rw [hU]; rfl)⟩
+  | ptr R =>
+    have hN : (∃ R, env.under F = .ptr R) ∨ (∃ E, env.under F = .slice E) ∨ ∃ K V, env.under F = .map K V :=
+      Or.inl ⟨R, hU⟩
+    rcases hasType_ptr_inv hU ht with rfl | ⟨a, y, rfl, hy⟩
+    · exact Or.inl ⟨field_nil hN, zero0_nil hN, rel1_nil hN⟩
+    · have hfy : finiteFloats y = true := by simpa [finiteFloats] using hfin
+      cases hB : isBasicTy R with
+      | some b =>
+        have hE := isBasicTy_some hB
+        subst hE
+        refine Or.inr ⟨_, field_ptr_basic hU hB a y, ?_⟩
+        intro n hn
+        rw [hasType_basic (b := b) rfl] at hy
+        obtain ⟨v', hv, hrel⟩ := leaf_eval (env := env) (n0 := n0) hL hy hfy n
+        rw [evalE.eq_5, hv]
+        simp only [Res.bind_ok]
+        exact ⟨.ptr n v', n + 1, rfl, by omega, rel1_ptr hU hrel hn⟩
+      | none =>
+        refine Or.inr ⟨_, field_ptr_other hU hB a y, ?_⟩
+        have hc : env.under F = env.under (.ptr R) := by rw [hU]; rfl
+        have ht' : hasType env (.ptr R) (.ptr a y) = true := by rw [← hasType_congr hc]; exact ht
+        intro n hn
+        obtain ⟨v', n', hv, hn', hrel⟩ := call_ok (htop (.ptr R) n0 ht' hfin) n hn
+        exact ⟨v', n', hv, hn', hrel.congr hc.symm⟩
+  | slice E =>
+    have hN : (∃ R, env.under F = .ptr R) ∨ (∃ E, env.under F = .slice E) ∨ ∃ K V, env.under F = .map K V :=
+      Or.inr (Or.inl ⟨E, hU⟩)
+    rcases hasType_slice_inv hU ht with rfl | ⟨a, sp, xs, rfl, hxs⟩
+    · exact Or.inl ⟨field_nil hN, zero0_nil hN, rel1_nil hN⟩
+    · have hfxs : finiteFloats xs = true := by simpa [finiteFloats] using hfin
+      cases hB : isBasicTy E with
+      | some b =>
+        have hE := isBasicTy_some hB
+        subst hE
+        refine Or.inr ⟨_, field_slice_basic hU hB a sp xs, ?_⟩
+        intro n hn
+        obtain ⟨ys, hys, hrs⟩ := leaves_eval (env := env) (n0 := n0) hL xs hxs hfxs n
+        rw [evalE.eq_2, hys]
+        simp only [Res.bind_ok]
+        exact ⟨.slice n 0 ys, n + 1, rfl, by omega, rel1_slice hU hrs hn⟩
+      | none => exact Or.inr ⟨_, field_slice_other hU hB a sp xs, call_ok (htop F n0 ht hfin)⟩
+  | array m E =>
+    obtain ⟨xs, rfl, hlen, hxs⟩ := hasType_array_inv hU ht
+    have hfxs : finiteFloats xs = true := by simpa [finiteFloats] using hfin
+    cases hB : isBasicTy E with
+    | some b =>
+      have hE := isBasicTy_some hB
+      subst hE
+      refine Or.inr ⟨_, field_array_basic hU hB xs, ?_⟩
+      intro n _
+      obtain ⟨ys, hys, hrs⟩ := leaves_eval (env := env) (n0 := n0) hL xs hxs hfxs n
+      rw [evalE.eq_3, hys]
+      simp only [Res.bind_ok]
+      exact ⟨.arr ys, n, rfl, Nat.le_refl _, rel1_arr hU hrs hlen⟩
+    | none => exact Or.inr ⟨_, field_array_other hU hB xs, call_ok (htop F n0 ht hfin)⟩
+  | map K V =>
+    have hN : (∃ R, env.under F = .ptr R) ∨ (∃ E, env.under F = .slice E) ∨ ∃ K V, env.under F = .map K V :=
+      Or.inr (Or.inr ⟨K, V, hU⟩)
+    rcases hasType_map_inv hU ht with rfl | ⟨a, es, rfl, hc, hes, hd⟩
+    · exact Or.inl ⟨field_nil hN, zero0_nil hN, rel1_nil hN⟩
+    · have hfes : finiteFloats es = true := by simpa [finiteFloats] using hfin
+      cases hK : isBasicTy K with
+      | some bk =>
+        cases hV : isBasicTy V with
+        | some bv =>
+          have hKe := isBasicTy_some hK
+          have hVe := isBasicTy_some hV
+          subst hKe; subst hVe
+          refine Or.inr ⟨_, field_map_lit hU hK hV a es, ?_⟩
+          intro n hn
+          obtain ⟨ys, hys, hrs⟩ := entryLeaves_eval (env := env) (n0 := n0) hL es hes hfes n
+          rw [evalE.eq_4, hys]
+          simp only [Res.bind_ok, keysDistinct_rel hf hc es ys hrs hes hd, if_true]
+          exact ⟨.map n ys, n + 1, rfl, by omega, rel1_map hf hU hc hes hd hrs hn⟩
+        | none => exact Or.inr ⟨_, field_map_other hU (Or.inr hV) a es, call_ok (htop F n0 ht hfin)⟩
+      | none => exact Or.inr ⟨_, field_map_other hU (Or.inl hK) a es, call_ok (htop F n0 ht hfin)⟩
+  | struct fs => exact Or.inr ⟨_, field_struct hU x, call_ok (htop F n0 ht hfin)⟩
+  | _ => rw [hasType_bad (by rw [hU])] at ht; cases ht
+
+/-- **Everything about every value.** -/
+theorem allP (hf : env.flagsOk = true) (hL : L.Round) (hexp : ExportedOnly env = true) (x : Val) :
+    P env L x := by
+  induction x using Val.strongInduction with
+  | step x ih =>
+    have ht := step_top hf hL hexp x ih
+    exact ⟨ht, step_field hf hL x ht⟩
 
 end Eval
 
